@@ -159,6 +159,9 @@ def check_stock(case, col=None):
 # part 2: families of PG programs
 
 
+FILL_LIST_REGIONS = True  # regions around the {% fill %} tags of a component body (include / kept block / overridden block)
+
+
 def _has_slot(nodes):
     return any(n["t"] == "slot" for n in pgstrat.walk(nodes))
 
@@ -299,6 +302,8 @@ def _node_lists(nodes, depth=0, inside=None):
         if body and body["kind"] == "implicit":
             yield from _node_lists(body["c"], depth + 1, "fill")
         elif body:
+            if FILL_LIST_REGIONS:
+                yield body["c"], depth + 1, "fillslist"
             for f in pgstrat.walk(body["c"]):
                 if f["t"] == "fill":
                     yield from _node_lists(f["c"], depth + 1, "fill")
@@ -324,6 +329,27 @@ def compose_cases(draw):
             if not lst or not names and draw(st.integers(0, 99)) < 50:
                 continue
             if depth > 0 and draw(st.integers(0, 99)) < 70:
+                continue
+            if inside == "fillslist":
+                # the fill tags of a component body moved into an included partial / written inside a {% block %} of the
+                # template family (kept or overridden by the child): the body must still yield exactly these fills
+                if any(x["t"] in ("block", "include") for x in pgstrat.walk(lst)) or draw(st.integers(0, 99)) < 45:
+                    continue
+                if any(y["t"] == "var" and re.fullmatch(r"f\d+", y["n"]) for y in pgstrat.walk(lst)):
+                    continue
+                for sub, _d, _i in _node_lists(lst):
+                    taken.add(id(sub))
+                for f_ in pgstrat.walk(lst):
+                    if f_["t"] == "fill":
+                        for sub, _d, _i in _node_lists(f_["c"]):
+                            taken.add(id(sub))
+                fop = draw(st.sampled_from(["include", "include", "keep", "override", "override"]))
+                whole = list(lst)
+                if fop == "include" or not names:
+                    lst[:] = [{"t": "include", "c": whole, "fills": True}]
+                else:
+                    lst[:] = [{"t": "block", "name": names.pop(draw(st.integers(0, len(names) - 1))), "op": fop, "c": whole, "fills": True}]
+                    nested = True
                 continue
             if any(x["t"] in ("block", "include") for x in lst) or any(x["t"] == "fill" for x in lst):
                 continue
